@@ -1740,6 +1740,19 @@ def overstep_clip_only(case, base, r, dk, dr, ds):
     return all(ok(a, b) for a, b in pairs)
 
 
+def overstep_outside_vertex(case, base):
+    """the precondition of F75: strict ranges, and the population the stopped ensemble shares with its best member holds a
+    coordinate outside them (the ensemble's own re-decoration at the next Step clips it in place)"""
+    if case.get("lo") is None:
+        return False
+    lo, hi = case["lo"], case["hi"]
+    pops = list(base.get("population") or [])
+    best = base.get("best_id")
+    if isinstance(best, int) and 0 <= best < len(base.get("members", [])):
+        pops += list(base["members"][best].get("population") or [])
+    return any(len(v) == len(lo) and any(x < l or x > h for x, l, h in zip(v, lo, hi)) for v in pops)
+
+
 def ensctl_request(n_iters, calls):
     return "C07 ensctl (n %s) (calls (%s)) (fuel 100000)" % (common.nl(n_iters), " ".join(k for k, _ in calls))
 
@@ -1826,7 +1839,7 @@ def ens_stream(seed, shard, ncases, tier, hist, findings, samples, ks=None):
             variants.append(("processes", fork_map(2, use_dill=True), ["steps-whole", j]))
         if bcalls:
             lines.append(ensctl_request(n_iters, bcalls)); pending.append(("python_map", "solve", bcalls, n_iters, meta))
-        nbad = 0; instance_reported = 0; over_reported = 0
+        nbad = 0; instance_reported = 0; over_reported = 0; over2_reported = 0
         for name, mp, mode in variants:
             if nbad >= 2:
                 break              # two failing schedules of one case are reported; the rest would repeat them
@@ -1870,6 +1883,22 @@ def ens_stream(seed, shard, ncases, tier, hist, findings, samples, ks=None):
                                                 base["bestSolution"], base["population"], base["bestEnergy"], int(mode[1]), name,
                                                 r["bestSolution"], r["population"], case["lo"], case["hi"]), c))
                 over_reported += 1
+            elif (dk or dr or ds) and mtag == "step-over" and overstep_outside_vertex(case, base):
+                # F75, second stage: the clipped vertex no longer satisfies the member's termination, so the member the
+                # ensemble shares its population with RESUMES iterating at the following Steps (more generations and
+                # evaluations than the run-to-completion run); precondition of the class: the stopped ensemble's shared
+                # population holds a vertex outside the strict ranges
+                bump("ens:step-after-termination:clipped-member-resumes")
+                if over2_reported == 0:
+                    c = dict(meta); c["map"] = name; c["mode"] = mode
+                    c["base"] = {kk: base[kk] for kk in ("bestSolution", "generations", "evaluations", "population")}
+                    c["other"] = {kk: r[kk] for kk in ("bestSolution", "generations", "evaluations", "population")}
+                    findings.append(Finding("monitor", OVERSTEP_KEY + "/clipped-member-resumes-iterating",
+                                            "the stopped ensemble's shared population %r holds a vertex outside the strict ranges %r..%r; %d more Step() "
+                                            "clip it and the best member resumes: generations %r -> %r, evaluations %r -> %r" % (
+                                                base["population"], case["lo"], case["hi"], int(mode[1]), base["generations"], r["generations"],
+                                                base["evaluations"], r["evaluations"]), c))
+                over2_reported += 1
             elif dk or dr or ds:
                 nbad += 1
                 c = dict(meta); c["map"] = name; c["mode"] = mode
@@ -1890,7 +1919,9 @@ def ens_stream(seed, shard, ncases, tier, hist, findings, samples, ks=None):
                     "Solve with python_map and %s with the %s map leave different %s (members stop after %r iterations): %s" % (
                         mode, name, "results" if clause == "result" else "member states (same reported results)", n_iters, desc[:900]), c))
             # the control-logic model: what every ensemble call did to every member (in-process maps see the events)
-            if name != "processes" and calls:
+            if name != "processes" and calls and not (mtag == "step-over" and overstep_outside_vertex(case, base)):
+                # (inside the F75 class - Steps after the stop with a stored vertex outside the ranges - the member resumes,
+                #  which the control model, faithful to the run up to the stop, does not follow)
                 lines.append(ensctl_request(n_iters, calls)); pending.append((name, mode, calls, n_iters, meta))
         if len(samples) < 1 and spread:
             samples.append({"stream": "ens", "case": case, "member_iterations": n_iters,
